@@ -141,6 +141,17 @@ Theorem C01_coordinates : forall c h d, run c (start c) h = Some d ->
 Proof. exact coordinates_history. Qed.
 Print Assumptions C01_coordinates.
 
+(* link with C05 / C04: for the formats with one underlying dataset (v2, v3, v4) the model IS
+   dataset[first-stage masks][ix2] under outer indexing, i.e. the spec that C05 proves of LazyIndexer and C04 of
+   DaskLazyIndexer, applied to the first-stage index handed over by the format glue (time mask padded for a duplicate
+   final dump, frequency mask, corrprod mask) *)
+Theorem C01_single_dataset_formats_are_two_stage_outer_indexing : forall c S s k ix2, c_fmt c <> V1 ->
+  let x := acquire c s k in
+  exists n m, ix_rows x = [n] /\ ix_tmasks x = [m]
+    /\ index S x ix2 = (a1 <- oindex_keep (mk_nd (n :: ix_dims x) S) (map AMask (m :: ix_tail x)) ;; oindex_keep a1 ix2).
+Proof. exact single_dataset_two_stage. Qed.
+Print Assumptions C01_single_dataset_formats_are_two_stage_outer_indexing.
+
 (* ------------------------------------------------------------------ C01_shape (full strength) *)
 
 (* After every history: shape = (|dumps|, |channels|, |corr_products|) = (len timestamps, len freqs, len corr_products)
